@@ -84,7 +84,7 @@ class C05(C03):
         for _ in range(120 if tier == "quick" else 3000):
             tags = lg.rand_tags(rng)
             yield {"budget": rng.choice([488, 24, 100]), "tags": tags,
-                   "reqs": rand_history(rng, tags, rng.randint(1, 30), invalid=0.4)}
+                   "reqs": rand_history(rng, tags, rng.randint(1, 30), invalid=0.4, class_level=True)}
 
     def nontrivial(self, c, out):
         steps = out.split(";") if out not in ("-", "") else []
